@@ -15,6 +15,15 @@ TRUSTED = [
     "parent pointers are not a field of the model: docutils' append/extend/insert/replace set them (checked on the "
     "implementation by the search walker: child.parent is p)",
     "the well-formedness predicates in coq/Doc/WF.v say what the clauses mean",
+    "gen/c02_pysrc.py (source-translation tie): the mapping of Python statements of the straight-line render methods to "
+    "instructions of coq/Doc/Prog.v - nodes.CLS(..) = allocation (new_text_elem for a TextElement with text), node[key]=v / "
+    "constructor keywords = the initial attribute dict in source order, copy_attributes / create_warning / set_refuri = the "
+    "registry operations, `with current_node_context(node, append=True)` = Ctx, current_node.append = Append; "
+    "add_line_and_source_path is dropped (line / source are not modelled); tests on state outside the model "
+    "(relative-images, links_external_new_tab, url conversion) are constant false under the static configuration; a branch "
+    "outside the model guarded by a token-only test and attribute keys with a converter are hoisted to an ENotModelled guard; "
+    "heading, table, clean_astext, current_node_context and the two dispatch loops are pinned by the hash of their normalised "
+    "source (gen/c02_pysrc_pins.json): an edit there is reported as a broken tie",
 ]
 ORACLES = {
     "O_table_shape": "markdown-it pads/truncates table body rows to the header length (checked on every token tree of "
@@ -30,7 +39,9 @@ ASSUMPTIONS = ["the model covers the static syntax subset; directive bodies, eva
 
 def gen(ctx):
     from gen import c02_render
+    from gen import c02_pysrc
     c02_render.run(ctx)
+    c02_pysrc.run(ctx)      # Gen/RenderSrc.v: the straight-line render methods, statement by statement (round 3)
 
 
 def _h(s):
